@@ -17,6 +17,7 @@ package main
 import (
 	"flag"
 	"fmt"
+	"net"
 	"os"
 	"reflect"
 	"strings"
@@ -108,7 +109,7 @@ func (c *controller) SetBalancer(l log.Logger, name string, svcRo *v1.Service, _
 		}
 	}
 
-	if len(prevIPs) != 0 && !c.isServiceAllocated(name) {
+	if releasedAny(prevIPs, c.ips.IPs(name)) {
 		// Only reprocess all if the previous IP(s) are still contained within a pool.
 		if c.ips.PoolForIP(prevIPs) != nil {
 			// convergeBalancer may deallocate our service and this means it did it.
@@ -139,6 +140,23 @@ func (c *controller) SetBalancer(l log.Logger, name string, svcRo *v1.Service, _
 
 	level.Info(l).Log("event", "serviceUpdated", "msg", "service is not updated")
 	return syncStateRes
+}
+
+// releasedAny tells if at least one of the previously held addresses is not held any more.
+func releasedAny(prev, cur []net.IP) bool {
+	for _, p := range prev {
+		held := false
+		for _, c := range cur {
+			if p.Equal(c) {
+				held = true
+				break
+			}
+		}
+		if !held {
+			return true
+		}
+	}
+	return false
 }
 
 func (c *controller) SetPools(l log.Logger, pools *config.Pools) controllers.SyncState {
